@@ -1,0 +1,14 @@
+//go:build !verif
+
+/*
+ * Empty stubs of the C03 verification hooks (see verif_on_c03.go); inlined away in a
+ * normal build.
+ */
+
+package compose
+
+func verifC03Submit(*taskManager, *task, []*task) {}
+func verifC03Finish(*taskManager, *task)          {}
+func verifC03Recv(*taskManager, *task)            {}
+func verifC03Refill(*taskManager)                 {}
+func verifC03Yield()                              {}
